@@ -156,7 +156,9 @@ pub fn run_inputs<I: CaseInput>(inputs: Vec<I>, d: &mut Driver, res: &mut OpResu
             res.samples.push(e.line.chars().take(600).collect());
         }
         for (sig, detail) in &e.oracle {
-            if res.oracle_failures.len() < max_report {
+            // report cap PER SIGNATURE (a flood of one kind of failure must not hide another kind)
+            let seen_sig = res.oracle_failures.iter().filter(|o| o["signature"] == sig.as_str()).count();
+            if seen_sig < 4 && res.oracle_failures.len() < 12 * max_report {
                 let (s, l, det) = shrink(&inputs[*idx], &Verdict::Oracle(sig.clone()), d);
                 res.oracle_failures.push(json!({"op": I::OP, "signature": sig, "detail": detail,
                     "input": inputs[*idx], "line": e.line, "shrunk_input": s, "shrunk_line": l, "shrunk_detail": det}));
